@@ -6,6 +6,7 @@ package main
 import (
 	"database/sql"
 	"fmt"
+	"os"
 	"path/filepath"
 	"strconv"
 	"strings"
@@ -185,6 +186,7 @@ func main() {
 	}
 	if o.Replay == "" {
 		quotaProbe(rep, w, o.Driver)
+		writtenProbe(rep, w, o.Driver, dir)
 	}
 	rep.Finish()
 }
@@ -535,4 +537,66 @@ func quotaProbe(rep *hx.Report, w *world.World, driver string) {
 		}
 	}
 	rep.Hit("probe:quota-boundary")
+}
+
+// writtenProbe: the configuration as an operator writes it — a YAML file read by config.LoadConfig, the way cmd/delivery starts —
+// decides as the same values set in code do: for domain lists in the spellings a file can hold (flow and block lists, quoted
+// entries, single-label and underscore host names, an A-label, many labels) one recipient inside and one outside the list.
+func writtenProbe(rep *hx.Report, w *world.World, driver, dir string) {
+	lists := []struct {
+		yaml  string
+		items []string
+	}{
+		{"[example.com]", []string{"example.com"}},
+		{"[localhost]", []string{"localhost"}},
+		{"\n    - intra_net.example\n    - \"mailhost\"", []string{"intra_net.example", "mailhost"}},
+		{"['xn--bcher-kva.example', a.b.c.d.example.com]", []string{"xn--bcher-kva.example", "a.b.c.d.example.com"}},
+		{"[localhost, example.com]", []string{"localhost", "example.com"}},
+		{"[corp, 10.example]", []string{"corp", "10.example"}},
+	}
+	for li, l := range lists {
+		for _, reject := range []bool{false, true} {
+			path := fmt.Sprintf("%s/written-%d-%v.yaml", dir, li, reject)
+			text := fmt.Sprintf("lmtp:\n  tcp_address: \"127.0.0.1:0\"\n  max_size: 600\n  timeout: 3\n  max_recipients: 3\ndatabase:\n  path: %q\ndelivery:\n  default_folder: INBOX\n  reject_unknown_user: %v\n  allowed_domains: %s\n", dir, reject, l.yaml)
+			if err := os.WriteFile(path, []byte(text), 0o600); err != nil {
+				continue
+			}
+			cfg, err := config.LoadConfig(path)
+			if err != nil {
+				rep.Violate("impl-violation", "policy vs Model/Policy (Props.C17.rcpt_policy_matches_docs): configuration file", fmt.Sprintf("the configuration %q is refused: %v", text, err), []string{"written " + hx.H(text)})
+				return
+			}
+			var hs []string
+			for _, d := range l.items {
+				hs = append(hs, hx.H(d))
+			}
+			addrs := []string{"mallory@elsewhere.org", "mallory@sub." + l.items[0]}
+			for _, d := range l.items {
+				addrs = append(addrs, fmt.Sprintf("w%d@%s", li, d))
+			}
+			for _, addr := range addrs {
+				out := w.LMTPCfg(cfg, "LHLO c\r\nMAIL FROM:<s@example.org>\r\nRCPT TO:<"+addr+">\r\nQUIT\r\n")
+				lines := strings.Split(strings.TrimRight(out, "\r\n"), "\r\n")
+				got := "---"
+				if len(lines) > 7 && len(lines[7]) >= 3 {
+					got = lines[7][:3]
+				}
+				in := "0"
+				if userExists(w, addr) {
+					in = "1"
+				}
+				m, err := hx.RunModel(driver, []string{fmt.Sprintf("p.rcpt %s %s 3 0 %s 0 %s", strings.Join(hs, ","), map[bool]string{false: "0", true: "1"}[reject], hx.H(addr), in)})
+				if err != nil {
+					rep.Violate("broken-correspondence", "driver", err.Error(), nil)
+					return
+				}
+				rep.Case(fmt.Sprintf("written|%d|%v|%s", li, reject, addr), m[0] == "250")
+				rep.Hit("written-config:rcpt:" + got)
+				if got != m[0] {
+					rep.Violate("impl-violation", "policy vs Model/Policy (Props.C17.rcpt_policy_matches_docs): configuration file", fmt.Sprintf("configuration file with allowed_domains: %s reject_unknown_user: %v (loaded as %v): RCPT TO:<%s> answered %s, the documented policy says %s", strings.TrimSpace(l.yaml), reject, cfg.Delivery.AllowedDomains, addr, got, m[0]), []string{"written " + hx.H(text), "rcpt " + hx.H(addr)})
+					return
+				}
+			}
+		}
+	}
 }
